@@ -249,7 +249,7 @@ def walk(items):
             yield from walk(it["items"])
 
 
-def gen_program(r, n=None, feats=None, lo=3, hi=14, types=None, p_rev=1.0, p_nodefault=0.0, p_shuffle=0.3, p_bare=0.03):
+def gen_program(r, n=None, feats=None, lo=3, hi=14, types=None, p_rev=1.0, p_nodefault=0.0, p_shuffle=0.3, p_bare=0.03, p_choice_redef=0.08):
     """Returns a structured program dict."""
     if n is None:
         n = r.randint(lo, hi)
@@ -326,6 +326,8 @@ def gen_program(r, n=None, feats=None, lo=3, hi=14, types=None, p_rev=1.0, p_nod
             if e["defaults"][0][1] is None:
                 e["defaults"] = []
             prog["items"].append(e)
+    if "redef" in feats and "choice" in feats and r.random() < p_choice_redef:
+        add_choice_redef(r, prog)
     # The hidden rank order (what may depend on what) is fixed now; the *definition* order need not follow it:
     # Kconfig allows forward references (`config GATED depends on GATE` above `config GATE`), and sdkconfig files,
     # unique_defined_syms and every "resolve in file order" loop then meet dependents before their dependencies.
@@ -338,6 +340,33 @@ def gen_program(r, n=None, feats=None, lo=3, hi=14, types=None, p_rev=1.0, p_nod
             i = r.randrange(len(its))
             its.insert(r.randrange(len(its)), its.pop(i))
     return prog
+
+
+def add_choice_redef(r, prog):
+    """A named choice defined in a second place (legal, rarely used): the second definition re-declares one or two of the
+    choice's own members with another prompt, at the top level or inside a menu of its own.  No new option is introduced,
+    so ranks and the option table are unchanged."""
+    choices = [it for it in walk(prog["items"]) if it["k"] == "choice" and not it.get("redef")]
+    choices = [c for c in choices if [m for m in walk(c["items"]) if m["k"] == "config"]]
+    if not choices:
+        return False
+    ch = r.choice(choices)
+    if not ch["name"]:
+        ch["name"] = "CHX%d" % (1 + sum(1 for c in choices if c["name"]))
+    members = [m for m in walk(ch["items"]) if m["k"] == "config"]
+    again = r.sample(members, min(len(members), r.choice([1, 1, 2])))
+    items = []
+    for m in again:
+        items.append({"k": "config", "name": m["name"], "type": BOOL, "prompt": "%s again" % m["name"].lower(), "prompt_cond": None, "depends": [],
+                      "defaults": [], "ranges": [], "selects": [], "implies": [], "sets": [], "help": False, "menuconfig": False, "warning": None,
+                      "redef": True})
+    second = {"k": "choice", "name": ch["name"], "prompt": "%s (second site)" % ch["prompt"], "prompt_cond": None, "depends": [], "defaults": [],
+              "items": items, "redef": True}
+    if r.random() < 0.6:
+        prog["items"].append({"k": "menu", "title": "MX%d" % len(prog["items"]), "depends": [], "visible_if": None, "items": [second]})
+    else:
+        prog["items"].append(second)
+    return True
 
 
 def sym_table(prog):
@@ -753,4 +782,7 @@ def gen_menu_program(r, n=None):
         items.append(submenu(0))
     if r.random() < 0.4:
         items.append(g.config())
-    return {"mainmenu": "T", "items": items, "feats": ALL_FEATS}
+    prog = {"mainmenu": "T", "items": items, "feats": ALL_FEATS}
+    if r.random() < 0.35:
+        add_choice_redef(r, prog)
+    return prog
